@@ -127,6 +127,7 @@ static int cb_func(cfg_t *cfg, cfg_opt_t *opt, int argc, const char **argv);
 static void cb_print(cfg_opt_t *opt, unsigned int index, FILE *fp);
 static void cb_freeptr(void *p);
 
+static void cmd_schema(char **toks, int ntok);
 static struct schema *find_schema(const char *id)
 {
 	int i;
@@ -845,6 +846,11 @@ static void do_op(char **t, int ntok)
 
 	if (want_errno >= 0)
 		errno = want_errno;	/* -1: leave errno as the previous library call left it */
+	if (!strcmp(op, "schema")) {
+		/* (re)define a schema inside a case: needed when the case releases the declarations */
+		cmd_schema(t, ntok);
+		return;
+	}
 	if (!strcmp(op, "env")) {
 		NEED(3); s1 = dec(t[1], NULL); s2 = dec(t[2], NULL);
 		if (s2) setenv(s1, s2, 1); else unsetenv(s1);
